@@ -393,7 +393,7 @@ def replay_history(ctx: Ctx, hist: List[Dict[str, Any]], kind: str, seed: int) -
             if w.npaths() != ev["npaths"]:
                 ctx.violation(f"simulate:{op}:npaths", f"{op}(n_paths={n}) left buffers with {w.npaths()} paths", detail)
                 return
-        if op in ("Payoff", "ListedSpot", "ComputeHedge", "ComputePortfolio", "ComputePL") and not (
+        if op in ("Payoff", "ListedSpot", "Features", "ComputeHedge", "ComputePortfolio", "ComputePL") and not (
                 w.kind in ("whalley-wilmott", "black-scholes") and w.nstrike["d1"] > 0):       # (these models copy d1's strike when they are built)
             # the same operation in a FRESHLY BUILT market with the current configuration and the current series
             hh = h if h != "-" else "h1"
